@@ -191,6 +191,44 @@ pub fn replay_spaces(mk: fn(Tier) -> Vec<Space>, case: &Value) -> Vec<(String, S
     vec![("machinery/replay-unknown-space".into(), name.to_string())]
 }
 
+/// Conditional skeletons with one hole: every string of up to `max_syms` symbols over {IF, NOTIF, ELSE, ENDIF} split at every
+/// position into (bytes before the hole, bytes after the hole). The hole is filled by the caller with each opcode byte.
+pub fn skeleton_holes(max_syms: usize) -> Vec<(Vec<u8>, Vec<u8>)> {
+    let syms = [0x63u8, 0x64, 0x67, 0x68];
+    let mut out = vec![];
+    let mut strings: Vec<Vec<u8>> = vec![vec![]];
+    let mut frontier: Vec<Vec<u8>> = vec![vec![]];
+    for _ in 0..max_syms {
+        let mut next = vec![];
+        for f in &frontier {
+            for s in syms {
+                let mut g = f.clone();
+                g.push(s);
+                next.push(g);
+            }
+        }
+        strings.extend(next.iter().cloned());
+        frontier = next;
+    }
+    for st in strings {
+        for cut in 0..=st.len() {
+            out.push((st[..cut].to_vec(), st[cut..].to_vec()));
+        }
+    }
+    out
+}
+
+/// The bytes that fill a hole for opcode byte `x`: the byte itself, followed by a complete payload when it is a push opcode.
+pub fn hole_fill(x: u8) -> Vec<u8> {
+    match x {
+        1..=0x4b => std::iter::once(x).chain((0..x).map(|i| 0xa0u8.wrapping_add(i))).collect(),
+        0x4c => vec![0x4c, 1, 0xaa],
+        0x4d => vec![0x4d, 1, 0, 0xaa],
+        0x4e => vec![0x4e, 1, 0, 0, 0, 0xaa],
+        _ => vec![x],
+    }
+}
+
 /// Deterministic byte patterns used across properties.
 pub fn pattern(p: u64, len: usize) -> Vec<u8> {
     match p {
